@@ -280,7 +280,11 @@ SCALED_CORE_QUOTS = [
     "SI<i8,-20,2>, SI<i32,10,2>", "SI<i64,5,2>, SI<i8,-3,2>",
 ]
 SCALED_CORE_SINGLES = ["SI<i32,-8,2>", "SI<i64,-70,2>", "SI<u16,3,2>", "SI<i8,-7,2>", "SI<u64,-32,2>", "SI<i64,40,2>",
-                       "SI<cnl::elastic_integer<24>,-12,2>", "SI<cnl::elastic_integer<53>,-60,2>", "i32", "u64"]
+                       "SI<cnl::elastic_integer<24>,-12,2>", "SI<cnl::elastic_integer<53>,-60,2>", "i32", "u64",
+                       # round 8: exponents at the digit counts / widths of the built-in integers (a scale factor computed by an
+                       # integer shift is wrong exactly there)
+                       "SI<i64,-63,2>", "SI<i64,63,2>", "SI<u64,-64,2>", "SI<u64,64,2>", "SI<i32,-31,2>", "SI<i32,31,2>",
+                       "SI<u32,-32,2>", "SI<i16,-15,2>", "SI<i8,63,2>", "SI<i16,-63,2>", "SI<i32,-62,2>", "SI<u8,-8,2>"]
 
 
 SCALED_CORE_CMPS = [
